@@ -798,6 +798,25 @@ class Interp:
                         self.bind(st, s["p"], RefV(v.key, v.path + (names[s["f"]],)))
                     return [(st, True)]
                 v = inner
+            if isinstance(v, StructV) and v.variant.startswith("<") and v.adt in self.F.adts and self.F.adts[v.adt]["is_enum"]:
+                # a contract value ("whatever that parser returned"): which variant it is is not known — both outcomes;
+                # in the matching one the payload is whatever that variant carries (fresh symbols)
+                vd = next((x for x in self.F.adts[v.adt]["variants"] if x["name"] == pat["variant"]), None)
+                if vd is None:
+                    raise Unmodelled("variant pattern on a contract value of another type")
+                s1 = st.clone()
+                tag = self.fresh("cv")
+                vals = [self.symbolic(f["t"], (tag, pat["variant"], f["name"])) for f in vd["fields"]]
+                res = [(s1, True)]
+                for s in pat["subs"]:
+                    nxt = []
+                    for s0, m in res:
+                        if not m:
+                            nxt.append((s0, m))
+                            continue
+                        nxt.extend(self.match_pat(s0, s["p"], vals[s["f"]] if s["f"] < len(vals) else Opaque("f")))
+                    res = nxt
+                return res + [(st, False)]
             if isinstance(v, StructV):
                 if v.variant != pat["variant"]:
                     return [(st, False)]
